@@ -218,9 +218,11 @@ def project_adapt(sc, run):
                                 mean[i] += diff * (1.0 / cnt)
                                 var[i] += diff * diff
                         return mean, var
-                    _, dv = welford([w[0] for w in window])
-                    _, gv = welford([w[1] for w in window])
+                    dm, dv = welford([w[0] for w in window])
+                    gm, gv = welford([w[1] for w in window])
                     got = [f_from_bits(x) for x in mm["v"]]
+                    mu_stat = stat(stt, "transformation_mu")
+                    got_mu = [f_from_bits(x) for x in mu_stat["v"]] if mu_stat is not None else None
                     for i in range(dim_):
                         if grad_based:
                             val = math.sqrt(dv[i] / gv[i]) if gv[i] != 0 else float("nan")
@@ -230,6 +232,12 @@ def project_adapt(sc, run):
                             val = min(max(val, 1e-20), 1e20)
                             if not close(math.sqrt(val), got[i], rel=1e-9):
                                 mmok = False
+                            # the translation is built from the means of the same window
+                            if got_mu is not None:
+                                want_mu = dm[i] + val * gm[i] if grad_based else dm[i]
+                                scale = abs(dm[i]) + abs(val * gm[i]) + 1e-300
+                                if math.isfinite(want_mu) and abs(want_mu - got_mu[i]) > 1e-9 * scale:
+                                    mmok = False
             else:
                 good_pts = good_pts if is_good is None else good_pts
         jit = None
